@@ -55,6 +55,12 @@ class AbstractDiscreteTimeOnlineInterpreter(AbstractOnlineInterpreter, DiscreteT
         self.update_counter = int(0)
         self.previous_time = float(0.0)
         self.sampling_violation_counter = int(0)
+
+        # inputs start from their declared defaults again: a variable that the next
+        # update leaves out must not keep the value it was fed before the reset
+        if getattr(self, 'ast', None) is not None:
+            for var_name in self.ast.free_vars:
+                self.ast.var_object_dict[var_name] = self.ast.create_var_from_name(var_name)
         return
 
     def set_variable_to_ast_from_dataset(self, dataset):
